@@ -271,6 +271,9 @@ inductive VStmt where
   | errIf (c : BX)
   /-- `if c { assert!(a, …); return (&[], &[], …) }`: `count` empty views -/
   | emptyIf (c a : BX) (count : Nat) (wr : Bool)
+  /-- `let v = mem::transmute(self)` of the receiver reference into a reference to a regrouped array of the same `ext`
+      elements: the same reference, retyped (address, extent and mutability are the receiver's) -/
+  | transmuteSelf (v : Nat) (ext : LX) (wr : Bool)
   /-- the function's value: these views -/
   | retViews (vs : List Nat)
   | opaque
@@ -349,6 +352,10 @@ def vstep (recvMut : Bool) (e : Env) (s : VSt) : VStmt → Sum VOut VSt
     | some true, some false => .inl .panic
     | some false, _ => .inr s
     | _, _ => .inl .ub
+  | .transmuteSelf v ext wr =>
+    match ext.eval e with
+    | some x => if wr != recvMut then .inl .ub else .inr { s with views := (v, ⟨0, x, wr⟩) :: s.views }
+    | none => .inl .ub
   | .retViews vs =>
     match lookupVs s.views vs with
     | some r => if noAlias r then .inl (.views r) else .inl .ub
